@@ -288,7 +288,9 @@ pub fn gen(ctx: &Ctx) {
                 let wire = if body.is_empty() { vec![] } else if rng.chance(1, 2) { fields.push(("Content-Length".into(), body.len().to_string().into_bytes())); body.clone() }
                            else { fields.push(("Transfer-Encoding".into(), b"chunked".to_vec())); crate::s_body::encode_chunked(&mut rng, &body) };
                 // 9: a slow handler (answers, then lingers 25 ms): what the client does next reaches the server while the request is in flight
-                let path = match kind { 1 => "/close", 2 => "/err", 3 => "/none", 4 => "/first", 5 => "/nosuch", 6 => "/reader/3000", 9 => "/slow/25",
+                // (a streamed body above 8 KiB without a declared length goes out chunked through the 128 KiB stack buffer of the
+                // printer: seed C17-j gave serve_threaded's connection threads a 128 KiB stack)
+                let path = match kind { 1 => "/close", 2 => "/err", 3 => "/none", 4 => "/first", 5 => "/nosuch", 6 => if rng.chance(1, 2) { "/reader/3000" } else { "/reader/20000" }, 9 => "/slow/25",
                     12 => *rng.pick(&["/errk/wb", "/errk/to", "/errk/intr", "/errk/pipe", "/errk/other"]), 13 => *rng.pick(&["/closer", "/closeka"]), _ => "/all" };
                 if kind == 7 {
                     // the pre-routing hook answers: alone, with a close token in its response, or to a request that asks for close
